@@ -125,7 +125,14 @@ pub fn run_c13(cfg: &RunCfg, trace: bool) -> RunOut {
                         if let Some(b) = &ab.base {
                             if let Ok(rd) = std::fs::read_dir(b) {
                                 for e in rd.flatten() {
-                                    let _ = std::fs::remove_dir_all(e.path().join("root"));
+                                    // the root directory of each physical node (whatever it is called)
+                                    if let Ok(inner) = std::fs::read_dir(e.path()) {
+                                        for x in inner.flatten() {
+                                            if x.path().is_dir() && x.file_name() != "via" {
+                                                let _ = std::fs::remove_dir_all(x.path());
+                                            }
+                                        }
+                                    }
                                 }
                             }
                             cx.out.count("probe.c13.async_physical_root_removed");
